@@ -233,6 +233,39 @@ theorem backoff_band (base r : ℚ) (hb : 0 ≤ base) (hr0 : 0 ≤ r) (hr1 : r <
   · have := Int.floor_le (jittered base r); linarith
   · exact Int.floor_le_floor hj0
 
+/-- the saturating conversion of /repo 0ecebdc: the delay is ⌊cur⌋ capped at MaxInt64 -/
+theorem backoffDur_band (p : Policy) (k : Nat) (r : ℚ) (hb : 0 ≤ backoffBase p k) (hr0 : 0 ≤ r) (hr1 : r < 1) :
+    min ⌊4 / 5 * backoffBase p k⌋ maxInt64 ≤ backoffDur p k r ∧
+    (backoffDur p k r : ℚ) ≤ 6 / 5 * backoffBase p k ∧ 0 ≤ backoffDur p k r ∧ backoffDur p k r ≤ maxInt64 := by
+  have hj0 : 4 / 5 * backoffBase p k ≤ jittered (backoffBase p k) r := by unfold jittered; nlinarith
+  have hj1 : jittered (backoffBase p k) r ≤ 6 / 5 * backoffBase p k := by unfold jittered; nlinarith
+  have hnn : 0 ≤ jittered (backoffBase p k) r := by linarith
+  unfold backoffDur
+  simp only
+  split_ifs with hlt
+  · rw [toInt64_of_nonneg _ hnn hlt]
+    refine ⟨le_trans (min_le_left _ _) (Int.floor_le_floor hj0), ?_, Int.floor_nonneg.mpr hnn, ?_⟩
+    · have := Int.floor_le (jittered (backoffBase p k) r); linarith
+    · have : ⌊jittered (backoffBase p k) r⌋ < 9223372036854775808 := by
+        apply Int.floor_lt.mpr; exact_mod_cast hlt
+      unfold maxInt64; omega
+  · have hge : (9223372036854775808 : ℚ) ≤ jittered (backoffBase p k) r := not_lt.mp hlt
+    refine ⟨min_le_right _ _, ?_, by unfold maxInt64; omega, le_refl _⟩
+    have : ((maxInt64 : ℤ) : ℚ) ≤ 9223372036854775808 := by unfold maxInt64; norm_num
+    linarith
+
+/-- the saturating multiplication of /repo dab5ad1 -/
+theorem pushbackDur_spec (n : Int) (h0 : 0 ≤ n) : pushbackDur n = min (1000000 * n) maxInt64 := by
+  unfold pushbackDur
+  have hdiv : (9223372036854775807 : Int) / 1000000 = 9223372036854 := by norm_num
+  rw [hdiv]
+  split_ifs with h
+  · have : 1000000 * n ≤ maxInt64 := by unfold maxInt64; omega
+    rw [min_eq_left this]
+    unfold wrap64; omega
+  · have : maxInt64 ≤ 1000000 * n := by unfold maxInt64; omega
+    rw [min_eq_right this]
+
 /-! ### histories -/
 
 /-- how one `shouldRetry` call moves the property's `k`. -/
